@@ -19,6 +19,8 @@ harness realises them on the real tensors.
 Where the code as it stands violates C15 the model carries both behaviours (`Variant`). -/
 namespace Opacus.Validate
 
+deriving instance DecidableEq for Except
+
 /-! ## Data -/
 
 inductive Ty where
@@ -368,24 +370,57 @@ def fixIN (v : Variant) (kw : Kw) (g : Nat) (m : Tree) : Except Exc Tree :=
     let i := { c.info with cfg := { c.info.cfg with trs := false } }
     .ok ⟨if v.inDropBuffers then { i with buffers := [] } else i, c.kids⟩
 
-def lstmCells (layers : Nat) (bidir : Bool) : List (Nat × Bool) :=
-  (List.range layers).flatMap (fun l => if bidir then [(l, false), (l, true)] else [(l, false)])
+/-- the cells of a DPLSTM in construction order: `for layer: for direction` -/
+def lstmCells : Nat → Bool → List (Nat × Bool)
+  | 0, _ => []
+  | l + 1, bidir => lstmCells l bidir ++ (if bidir then [(l, false), (l, true)] else [(l, false)])
 
-def rnnLinear (g slot : Nat) (name : String) (w : Val) (b : Option Val) : Tree :=
+def mapOpt {α β} (f : α → Option β) : List α → Option (List β)
+  | [] => some []
+  | a :: as =>
+    match f a, mapOpt f as with
+    | some b, some bs => some (b :: bs)
+    | _, _ => none
+
+def rnnLinear (g slot : Nat) (name : String) (w : Param) (b : Option Param) : Tree :=
   leaf g slot .rnnLinear
-    (⟨"weight", .new g (slot + 1), w, true⟩ ::
-      (match b with | some bv => [⟨"bias", .new g (slot + 2), bv, true⟩] | none => []))
+    ({ w with name := "weight" } :: (match b with | some bp => [{ bp with name := "bias" }] | none => []))
     {} (.s name)
 
-def dplstmCell (g : Nat) (sd : List (String × Val)) (bias : Bool) (idx : Nat) (c : Nat × Bool) : Option Tree := do
+/-- the (renamed) parameters of one DPLSTM cell, loaded from the LSTM's state dict:
+`weight_ih_<sfx>`, `bias_ih_<sfx>`?, `weight_hh_<sfx>`, `bias_hh_<sfx>`? -/
+structure CellParams where
+  layer : Nat
+  rev : Bool
+  wih : Param
+  bih : Option Param
+  whh : Param
+  bhh : Option Param
+
+def cellSlot (c : Nat × Bool) : Nat := 20 * c.1 + (if c.2 then 10 else 0) + 10
+
+/-- an optional key of the state dict: absent from the layer (`some none`), loaded, or missing -/
+def optVal (wanted : Bool) (x : Option Val) : Option (Option Val) := if wanted then x.map some else some none
+
+def cellParams (g : Nat) (sd : List (String × Val)) (bias : Bool) (c : Nat × Bool) : Option CellParams :=
   let sfx := cellSuffix c.1 c.2
-  let slot := 10 * idx + 10
-  let wih ← sdGet sd ("weight_ih_" ++ sfx)
-  let whh ← sdGet sd ("weight_hh_" ++ sfx)
-  let bih ← if bias then (sdGet sd ("bias_ih_" ++ sfx)).map some else some none
-  let bhh ← if bias then (sdGet sd ("bias_hh_" ++ sfx)).map some else some none
-  pure ⟨{ name := .cell c.1 c.2, oid := .new g slot, ty := .dplstmCell },
-        Forest.ofList [rnnLinear g (slot + 1) "ih" wih bih, rnnLinear g (slot + 4) "hh" whh bhh]⟩
+  let slot := cellSlot c
+  match sdGet sd ("weight_ih_" ++ sfx), sdGet sd ("weight_hh_" ++ sfx),
+        optVal bias (sdGet sd ("bias_ih_" ++ sfx)), optVal bias (sdGet sd ("bias_hh_" ++ sfx)) with
+  | some wih, some whh, some bih, some bhh =>
+    some ⟨c.1, c.2, ⟨"weight_ih_" ++ sfx, .new g (slot + 2), wih, true⟩,
+          bih.map (fun v => ⟨"bias_ih_" ++ sfx, .new g (slot + 3), v, true⟩),
+          ⟨"weight_hh_" ++ sfx, .new g (slot + 5), whh, true⟩,
+          bhh.map (fun v => ⟨"bias_hh_" ++ sfx, .new g (slot + 6), v, true⟩)⟩
+  | _, _, _, _ => none
+
+def CellParams.list (p : CellParams) : List Param :=
+  [p.wih] ++ p.bih.toList ++ [p.whh] ++ p.bhh.toList
+
+def dplstmCell (g : Nat) (p : CellParams) : Tree :=
+  let slot := cellSlot (p.layer, p.rev)
+  ⟨{ name := .cell p.layer p.rev, oid := .new g slot, ty := .dplstmCell },
+   Forest.ofList [rnnLinear g (slot + 1) "ih" p.wih p.bih, rnnLinear g (slot + 4) "hh" p.whh p.bhh]⟩
 
 def dplstmKeys (cells : List (Nat × Bool)) (bias : Bool) : List String :=
   cells.flatMap (fun c =>
@@ -393,12 +428,12 @@ def dplstmKeys (cells : List (Nat × Bool)) (bias : Bool) : List String :=
     ["weight_ih_" ++ sfx] ++ (if bias then ["bias_ih_" ++ sfx] else []) ++
     ["weight_hh_" ++ sfx] ++ (if bias then ["bias_hh_" ++ sfx] else []))
 
-def mapIdxM? {α β} (f : Nat → α → Option β) : Nat → List α → Option (List β)
-  | _, [] => some []
-  | n, a :: as => do
-    let b ← f n a
-    let bs ← mapIdxM? f (n + 1) as
-    pure (b :: bs)
+/-- `DPLSTM(**config)` with the given loaded parameters.  `RenameParamsMixin`: the cells' parameters
+are *also* registered on the DPLSTM itself under the nn.LSTM names (same objects). -/
+def dplstmTree (g : Nat) (cfg : Cfg) (cps : List CellParams) : Tree :=
+  let drop := if cfg.dropout then [leaf g 1 .dropout [] {} (.s "dropout_layer")] else []
+  ⟨{ oid := .new g 0, ty := .dplstm, cfg := cfg, params := cps.flatMap CellParams.list },
+   Forest.ofList (drop ++ cps.map (dplstmCell g))⟩
 
 /-- `lstm.fix`: `DPLSTM(**config).load_state_dict(module.state_dict())` -/
 def fixLSTM (v : Variant) (kw : Kw) (g : Nat) (m : Tree) : Except Exc Tree :=
@@ -409,11 +444,9 @@ def fixLSTM (v : Variant) (kw : Kw) (g : Nat) (m : Tree) : Except Exc Tree :=
     let sd := m.stateDict
     if ¬ sdStrictOk (dplstmKeys cells cfg.bias) sd then .error .runtimeError
     else
-      match mapIdxM? (dplstmCell g sd cfg.bias) 0 cells with
+      match mapOpt (cellParams g sd cfg.bias) cells with
       | none => .error .runtimeError
-      | some cs =>
-        let drop := if cfg.dropout then [leaf g 1 .dropout [] {} (.s "dropout_layer")] else []
-        .ok ⟨{ oid := .new g 0, ty := .dplstm, cfg := cfg }, Forest.ofList (drop ++ cs)⟩
+      | some cps => .ok (dplstmTree g cfg cps)
 
 /-- `DPMultiheadAttention.load_state_dict`: key translation from `nn.MultiheadAttention` -/
 def mhaTranslate (sd : List (String × Val)) : List (String × Val) :=
@@ -429,18 +462,52 @@ def mhaTranslate (sd : List (String × Val)) : List (String × Val) :=
     else if e.1 == "v_proj_weight" then [("vlinear.weight", e.2)]
     else [e])
 
-def linearFrom (g slot : Nat) (name : String) (sd : List (String × Val)) (bias : Bool) : Option Tree := do
-  let w ← sdGet sd (name ++ ".weight")
-  let b ← if bias then (sdGet sd (name ++ ".bias")).map some else some none
-  pure (leaf g slot .linear
-    (⟨"weight", .new g (slot + 1), w, true⟩ ::
-      (match b with | some bv => [⟨"bias", .new g (slot + 2), bv, true⟩] | none => []))
-    {} (.s name))
-
 def dpmhaKeys (bias addBiasKv : Bool) : List String :=
   ["qlinear", "klinear", "vlinear", "out_proj"].flatMap
       (fun n => [n ++ ".weight"] ++ (if bias then [n ++ ".bias"] else []))
     ++ (if addBiasKv then ["seq_bias_k.bias", "seq_bias_v.bias"] else [])
+
+/-- weight and optional bias of one `nn.Linear` of the DPMultiheadAttention, from the state dict -/
+def linVals (sd : List (String × Val)) (name : String) (bias : Bool) : Option (Val × Option Val) := do
+  let w ← sdGet sd (name ++ ".weight")
+  let b ← if bias then (sdGet sd (name ++ ".bias")).map some else some none
+  pure (w, b)
+
+structure MhaVals where
+  q : Val × Option Val
+  k : Val × Option Val
+  v : Val × Option Val
+  o : Val × Option Val
+  seqBias : Option (Val × Val)
+
+def mhaVals (sd : List (String × Val)) (bias addBiasKv : Bool) : Option MhaVals := do
+  let q ← linVals sd "qlinear" bias
+  let k ← linVals sd "klinear" bias
+  let v ← linVals sd "vlinear" bias
+  let o ← linVals sd "out_proj" bias
+  let sb ← if addBiasKv then do
+      let bk ← sdGet sd "seq_bias_k.bias"
+      let bv ← sdGet sd "seq_bias_v.bias"
+      pure (some (bk, bv))
+    else some none
+  pure ⟨q, k, v, o, sb⟩
+
+def linearOf (g slot : Nat) (name : String) (wb : Val × Option Val) : Tree :=
+  leaf g slot .linear
+    (⟨"weight", .new g (slot + 1), wb.1, true⟩ ::
+      (match wb.2 with | some bv => [⟨"bias", .new g (slot + 2), bv, true⟩] | none => []))
+    {} (.s name)
+
+/-- `DPMultiheadAttention(**config)` with the given loaded parameters -/
+def dpmhaTree (g : Nat) (cfg : Cfg) (x : MhaVals) : Tree :=
+  let sb := match x.seqBias with
+    | some (bk, bv) =>
+      [leaf g 50 .seqBias [⟨"bias", .new g 51, bk, true⟩] {} (.s "seq_bias_k"),
+       leaf g 52 .seqBias [⟨"bias", .new g 53, bv, true⟩] {} (.s "seq_bias_v")]
+    | none => []
+  ⟨{ oid := .new g 0, ty := .dpmha, cfg := cfg },
+   Forest.ofList ([linearOf g 10 "qlinear" x.q, linearOf g 20 "klinear" x.k, linearOf g 30 "vlinear" x.v,
+                   linearOf g 40 "out_proj" x.o] ++ sb ++ [leaf g 60 .dropout [] {} (.s "dropout")])⟩
 
 /-- `multihead_attention.fix` -/
 def fixMHA (v : Variant) (kw : Kw) (g : Nat) (m : Tree) : Except Exc Tree :=
@@ -451,21 +518,9 @@ def fixMHA (v : Variant) (kw : Kw) (g : Nat) (m : Tree) : Except Exc Tree :=
     let sd := mhaTranslate m.stateDict
     if ¬ sdStrictOk (dpmhaKeys bias addBiasKv) sd then .error .runtimeError
     else
-      let r : Option (List Tree) := do
-        let q ← linearFrom g 10 "qlinear" sd bias
-        let k ← linearFrom g 20 "klinear" sd bias
-        let vl ← linearFrom g 30 "vlinear" sd bias
-        let o ← linearFrom g 40 "out_proj" sd bias
-        let sb ← if addBiasKv then do
-            let bk ← sdGet sd "seq_bias_k.bias"
-            let bv ← sdGet sd "seq_bias_v.bias"
-            pure [leaf g 50 .seqBias [⟨"bias", .new g 51, bk, true⟩] {} (.s "seq_bias_k"),
-                  leaf g 52 .seqBias [⟨"bias", .new g 53, bv, true⟩] {} (.s "seq_bias_v")]
-          else some []
-        pure ([q, k, vl, o] ++ sb ++ [leaf g 60 .dropout [] {} (.s "dropout")])
-      match r with
+      match mhaVals sd bias addBiasKv with
       | none => .error .runtimeError
-      | some cs => .ok ⟨{ oid := .new g 0, ty := .dpmha, cfg := m.info.cfg }, Forest.ofList cs⟩
+      | some x => .ok (dpmhaTree g m.info.cfg x)
 
 /-- `ModuleValidator.FIXERS[type(sub_module)](sub_module, **kwargs)` -/
 def fixer (v : Variant) (kw : Kw) (g : Nat) (m : Tree) : Except Exc Tree :=
@@ -520,11 +575,20 @@ def independent (t : Tree) : Prop := ∀ e ∈ t.named, nodeIndependent e.2.info
 /-- torch constructor invariant: normalisation layers own running-stat buffers iff the flag is set -/
 def bufWF (i : Info) : Bool := !(isBN i.ty || isIN i.ty) || (hasRunBuf i == i.cfg.trs)
 
-/-- sibling names are pairwise distinct (`_modules` is a dictionary) -/
-def Forest.WF : Forest → Prop
-  | .nil => True
-  | .cons i k r => r.find i.name = none ∧ k.WF ∧ r.WF
+/-- sibling names are pairwise distinct (`_modules` is a dictionary), recursively -/
+def Forest.wf : Forest → Bool
+  | .nil => true
+  | .cons i k r => (r.find i.name).isNone && k.wf && r.wf
 
-def Tree.WF (t : Tree) : Prop := t.kids.WF
+def Tree.WF (t : Tree) : Prop := t.kids.wf = true
+
+instance (t : Tree) : Decidable t.WF := by unfold Tree.WF; infer_instance
+
+/-- a predicate on every node below -/
+def Forest.all (P : Info → Bool) : Forest → Bool
+  | .nil => true
+  | .cons i k r => P i && k.all P && r.all P
+
+def Tree.all (P : Info → Bool) (t : Tree) : Bool := P t.info && t.kids.all P
 
 end Opacus.Validate
